@@ -139,7 +139,7 @@ class MainTrackingFile(Contract):
     tags = {'C15', 'C17'}
     ghosts = {'k': 'int'}
     slice_from = 'trackme'
-    slice_count = 2
+    slice_until = 'hdf_file'        # everything between the declaration of the particle list and the preparation of the results file
     replay = lambda self, o, model, pid: {'driver': 'main', 'scenarios': ['tracking']} if 'kth_pair' in o.name or 'placed' in o.name else None
 
     def slice_setup(self, ex, st):
